@@ -56,6 +56,9 @@ example :
       [[.tick 2], [.conn 1], [.send 1 "a/qu"], [.send 1 "it/", .tick 2], [.conn 2], [.close 1], [.cin "x/"]]).crashed = none :=
   (backend_total _ _ _ ⟨rfl, fun _ => rfl, rfl, rfl, rfl, rfl⟩).1
 
+/-- the crash outcome is not totalised away: outside the invariant the model does crash (use of a freed record) -/
+example : (useConn ({} : W) 7).crashed ≠ none := by decide
+
 /-- whatever a task does - at any nesting depth of hooks calling hooks - the invariant survives it -/
 theorem hooks_keep_invariant (S : Scripts) (fuel : Nat) (w : W) (o : Oid) (k : Kind) (i : Inv w) :
     Inv (runHook S fuel w o k).1 := (runHook_ok S fuel w o k i).1
